@@ -525,6 +525,10 @@ C07_Check(S, T, a, L) ==
 C07_QueryDrops(S, T, a, L) ==
     (~Refusal(L) /\ ~a.idx /\ Local(a.s)) =>
         \A o \in Expand(a.ids, a.shallow) : S[a.s][o] = "bad_u" => (~Present(T, a.s, o) /\ o \in L.missing)
+\* a query never turns a mismatching unprotected object into a trusted (read-only) one:
+\* it leaves it alone (not examined) or removes it
+C07_NoBlessing(S, T) == \A s \in Stores, o \in Oids : (S[s][o] = "bad_u" /\ T[s][o] # "bad_u") => T[s][o] = Absent
+QueryOps == {"Status", "CompareStatus", "Check", "TransferBegin"}
 C07_IntactUnharmed(S, T) == \A s \in Stores, o \in Oids : Intact(S, s, o) => Intact(T, s, o)
 
 \* the step predicates as one action property over the design (act' identifies the step)
@@ -537,6 +541,7 @@ StepProps ==
                            /\ C06_Refusal(store, store', act', last'))
     /\ (act'.op = "Check" => C07_Check(store, store', act', last'))
     /\ (act'.op \notin {"Tamper", "ExtDelete", "Gc"} => C07_IntactUnharmed(store, store'))
+    /\ (act'.op \in QueryOps => C07_NoBlessing(store, store'))
 StepPropsHold == [][StepProps]_vars
 
 \* ---- C01 : whatever dvc-data operations leave in a store matches its name --
